@@ -181,7 +181,10 @@ def main():
             ex = xg.signed_area2([xg.P(p_) for p_ in w]) / 2  # >0 anticlockwise
             if ex != 0:
                 ar = polygons.area(w)  # positive = clockwise
-                acc.add("polygons.area = -exact signed area", "random|area", abs(ar + float(ex)) / abs(float(ex)), 1e-12, where={"polygon": w})
+                # rounding of a sum of products is proportional to the sum of the magnitudes of its terms
+                # (R_i * Z_j products), not to the result: a thin sliver has a tiny area and full-size terms
+                mag = sum(abs(w[i][0] * w[(i + 1) % len(w)][1]) + abs(w[(i + 1) % len(w)][0] * w[i][1]) for i in range(len(w)))
+                acc.add("polygons.area = -exact signed area", "random|area", abs(ar + float(ex)) / max(abs(float(ex)), 1e-3 * mag), 1e-12, where={"polygon": w})
                 acc.add("polygons.clockwise = exact orientation", "random|area", 0.0 if (polygons.clockwise(w) == (ex < 0)) else 1.0, 0.0, where={"polygon": w})
             # ---- polygon-polygon intersection ---------------------------------------------
             for closed_flags in ((True, True), (False, True), (True, False)):
